@@ -499,7 +499,7 @@ def side_case(draw):
                         kernel_forms=("named", "precomputed", "callable"), metric_forms=("named", "precomputed", "callable")))
     if s["cls"] in E.SPARSE:
         s["alpha"] = draw(st.sampled_from([0.5, 2.0, 0.1]))
-    return {"spec": s, "path": draw(st.booleans())}
+    return {"spec": s, "path": draw(st.booleans()), "nan_after": draw(st.one_of(st.none(), st.none(), st.integers(2, 9)))}
 
 
 def deep_params(est):
@@ -556,6 +556,10 @@ def oracle_side(case):
                     if op in ("fit", "fit_predict", "score"):
                         getattr(est, op)(X, y) if y is not None else getattr(est, op)(X)
                     elif op == "path":
+                        if case.get("nan_after") and not (s.get("gemini") or {}).get("kind") == "instance":
+                            # the path may also end through its NaN branch (objective turning NaN after some evaluations)
+                            from .c07 import poison
+                            poison(est, case["nan_after"])
                         est.path(X, y, **PATH_ARGS)
                     else:
                         getattr(est, op)(X)
